@@ -474,7 +474,7 @@ fn rand_exact(r: &mut Rng) -> Exact {
     let l = *r.pick(&lin);
     let small = |r: &mut Rng| if r.chance(1, 2) { 0 } else { r.range(-7, 7) as i128 };
     let big = |r: &mut Rng| *r.pick(&[0i64, 0, 1000, -1000, 100_000_000, -100_000_000, 1 << 40]);
-    Exact { m: M { a: l.0, b: l.1, x: small(r), d: l.2, e: l.3, y: small(r) }, ox: big(r), oy: big(r), sh: if r.chance(1, 2) { 0 } else { r.range(-20, 20) as i32 } }
+    Exact { m: M { a: l.0, b: l.1, x: small(r), d: l.2, e: l.3, y: small(r) }, ox: big(r), oy: big(r), sh: if r.chance(1, 2) { 0 } else { r.range(-40, 40) as i32 } }
 }
 impl Exact {
     fn map_ig(&self, a: &IG) -> IG {
@@ -489,7 +489,7 @@ impl Exact {
     }
     /// the same map as an AffineTransform<f64> with exactly representable entries
     fn transform(&self) -> AffineTransform<f64> {
-        let s = 2f64.powi(self.sh);
+        let s = crate::q::pow2(self.sh);
         let m = self.m;
         AffineTransform::new(m.a as f64 * s, m.b as f64 * s, (m.x as f64 + self.ox as f64) * s, m.d as f64 * s, m.e as f64 * s, (m.y as f64 + self.oy as f64) * s)
     }
@@ -566,7 +566,7 @@ fn commute_case(sh: &mut Shard, a: &IG, b: &IG, q: IP, ex: &Exact, verbose: bool
     same!("is_valid", ga.is_valid(), ha.is_valid());
     same!("validation_error_count", ga.validation_errors().len(), ha.validation_errors().len());
     // 3. measures scale by exactly the factor (power of two => exact; signed permutations only reorder/negate terms)
-    let f = 2f64.powi(ex.sh);
+    let f = crate::q::pow2(ex.sh);
     // Without a large translation every coordinate and every product of two coordinate differences is
     // an exactly representable small dyadic, so the measure must scale by exactly the factor (a few ulps
     // for the reordering caused by axis swaps). A large translation makes products of absolute
@@ -617,6 +617,26 @@ fn commute_case(sh: &mut Shard, a: &IG, b: &IG, q: IP, ex: &Exact, verbose: bool
             if !l1.0.is_empty() && !m1.0.is_empty() {
                 scaled!("hausdorff", l1.hausdorff_distance(m1), l2.hausdorff_distance(m2), f, 4.0, tl);
             }
+        }
+    }
+    // 3b. centroid commutes with the map: exactly when the map has no translation (scaling by a power of two,
+    // negation and swapping of axes commute with every rounding of +, -, *, / and sqrt), otherwise within
+    // 32·u·(coordinate magnitude of the mapped operand)
+    sh.eval(1);
+    if let (Ok(c1), Ok(c2)) = (call(|| ga.centroid()), call(|| ha.centroid())) {
+        match (c1, c2) {
+            (None, None) => {}
+            (Some(p1), Some(p2)) => {
+                let e = t.apply(p1.0);
+                let no_translation = ex.ox == 0 && ex.oy == 0 && ex.m.x == 0 && ex.m.y == 0;
+                let ma = coords_of(&ha).iter().fold(0.0f64, |m, c| m.max(c.x.abs()).max(c.y.abs()));
+                let tol = if no_translation { 0.0 } else { 32.0 * U * ma };
+                let err = (e.x - p2.x()).abs().max((e.y - p2.y()).abs());
+                if !(err <= tol) {
+                    sh.violation(&format!("commute.centroid|{}|-", a.kind()), det("commute.centroid", format!("{:?}", e), format!("{:?}", p2.0)));
+                }
+            }
+            (x, y) => sh.violation(&format!("commute.centroid|{}|-", a.kind()), det("commute.centroid", format!("{:?}", x), format!("{:?}", y))),
         }
     }
     // 4. convex hull vertex set and bounding rectangle commute exactly
